@@ -45,7 +45,7 @@ LEVEL_NOTE = ('Trusted: the byte-level signature reference (sig_present). '
               'streams - not all byte strings.')
 
 ALL = ['raw', 'qcow2', 'vhd', 'vhdx', 'vmdk', 'vdi', 'qed', 'iso', 'gpt', 'luks']
-OFF0 = [None, 'qcow2', 'qed', 'vhd', 'vhdx', 'vmdk', 'luks']
+OFF0 = [None, 'qcow2', 'qed', 'vhd', 'vhdx', 'vmdk', 'luks', 'qcow2v1', 'qcow2v0']
 DECISION = {'qcow2': 512, 'qed': 512, 'vhd': 512, 'vhdx': 262144, 'vmdk': 64,
             'luks': 592, 'vdi': 512, 'gpt': 512, 'iso': 34816}
 BIG = 300 * 1024
@@ -102,6 +102,8 @@ def make_content(r):
         parts = []
         if off0 == 'qcow2':
             parts.append((0, B.qcow2(length=104).data[:104]))
+        elif off0 in ('qcow2v1', 'qcow2v0'):
+            parts.append((0, B.qcow2(version=int(off0[-1]), length=104).data[:104]))
         elif off0 == 'qed':
             parts.append((0, B.qed().data[:64]))
         elif off0 == 'vhd':
@@ -156,7 +158,8 @@ def recipes(ctx):
                         out.append(('overlay', off0, vdi, mbr, iso, 'text', BIG))
                     else:
                         out.append(('overlay', off0, vdi, mbr, iso, bgs[1 + (n + ctx.seed) % 2], BIG))
-                    present = [f for f, on in ((off0, off0), ('vdi', vdi), ('gpt', mbr), ('iso', iso)) if on]
+                    present = [f for f, on in ((off0[:5] if off0 and off0.startswith('qcow2') else off0, off0),
+                                               ('vdi', vdi), ('gpt', mbr), ('iso', iso)) if on]
                     points = sorted({DECISION[f] for f in present} | ({592} if off0 == 'luks' else set()))
                     for dp in points:
                         for ln in (dp - 1, dp, dp + 1):
